@@ -3,6 +3,7 @@
 
 mod codec;
 mod dist;
+mod sched;
 
 use arrow::datatypes::{Field, Schema, SchemaRef};
 use arrow::record_batch::RecordBatch;
@@ -427,6 +428,36 @@ fn main() {
                     Some(db) => rt.block_on(do_sql(db, &req)),
                     None => json!({"ok": false, "err": "Driver", "msg": "no db"}),
                 },
+                "sched" => match dbs.get(&dbname) {
+                    Some(db) => {
+                        // current-thread runtime: spawned engine tasks only move when the explorer yields
+                        let crt = tokio::runtime::Builder::new_current_thread().enable_all().build().unwrap();
+                        crt.block_on(sched::do_sched(db, &req))
+                    }
+                    None => json!({"ok": false, "err": "Driver", "msg": "no db"}),
+                },
+                "contract" => match dbs.get(&dbname) {
+                    Some(db) => rt.block_on(sched::do_contract(db, &req)),
+                    None => json!({"ok": false, "err": "Driver", "msg": "no db"}),
+                },
+                "hooks" => {
+                    // verification gate overrides (feature `verif`): null clears
+                    use query_engine::verif_hooks as vh;
+                    let get = |k: &str| req.get(k).and_then(|v| v.as_u64());
+                    if req.get("force_streaming").is_some() {
+                        vh::FORCE_STREAMING_SCAN.set(get("force_streaming"));
+                    }
+                    if req.get("prescan_max").is_some() {
+                        vh::PRESCAN_MAX_BYTES.set(get("prescan_max"));
+                    }
+                    if req.get("dense_range_min").is_some() {
+                        vh::DENSE_RANGE_MIN.set(get("dense_range_min"));
+                    }
+                    if req.get("mem_partition_min_rows").is_some() {
+                        vh::MEM_PARTITION_MIN_ROWS.set(get("mem_partition_min_rows"));
+                    }
+                    json!({"ok": true})
+                }
                 "sql_many" => match dbs.get(&dbname) {
                     Some(db) => {
                         // outcome classes only (C29): "ok:<rows>", "E:<class>", "PANIC:<msg>"
